@@ -89,6 +89,28 @@ theorem removeLru_winv (w : W κ ν) (site : RemoveSite) (h : WInv w) : WInv (re
       | none => exact h
       | some i => exact winv_unlinked w h old.key i hl
 
+theorem removeLruN_winv (w : W κ ν) (j : Nat) (h : WInv w) : WInv (removeLruN w j) := by
+  induction j generalizing w with
+  | zero => exact h
+  | succ j ih => exact ih _ (removeLru_winv w .done h)
+
+/-- `purge` aborted in any iteration at any site -/
+theorem purge_winv (w : W κ ν) (j : Nat) (site : RemoveSite) (h : WInv w) : WInv (purge w j site) :=
+  removeLru_winv _ site (removeLruN_winv w j h)
+
+/-- `resize` aborted in any iteration at any site, in the re-hash, or completed -/
+theorem resize_winv (w : W κ ν) (n j : Nat) (site : RemoveSite) (fin : Bool) (h : WInv w) : WInv (resize w n j site fin) := by
+  unfold resize
+  split
+  · exact h
+  · simp only
+    split
+    · have := removeLruN_winv w (w.index.length - n) h
+      exact ⟨this.ids_nd, this.idx_keys_nd, this.idx_ids_nd, this.idx_in_chain, this.live⟩
+    · split
+      · exact removeLru_winv _ site (removeLruN_winv w j h)
+      · exact removeLruN_winv w _ h
+
 theorem get_winv (w : W κ ν) (k : κ) (site : RemoveSite) (h : WInv w) : WInv (Abort.get w k site) := by
   unfold Abort.get
   by_cases h1 : site = .lookup
